@@ -103,7 +103,13 @@ def check(ctx):
                 t = body.term(x)
                 if t[0] != "Switch" or t[5] != "bool": return False
                 e = strip_casts(dg.expr(t[1]))
-                return e[0] == "call" and "{closure#0}" in e[1] and y == t[3]
+                if e[0] != "call" or y != t[3]: return False
+                # the vacancy predicate: a closure of end_stream or a crate fn, whose body reads the vacant-id FIFO
+                ck = e[1]
+                if e[1] in ("std::ops::Fn::call", "std::ops::FnMut::call_mut", "std::ops::FnOnce::call_once") and e[2] and strip_casts(e[2][0])[0] in ("closure", "ref"):
+                    c0 = strip_casts(e[2][0]); ck = c0[1] if c0[0] == "closure" else ck
+                fam = [g for g in fx.fns if g["key"] == ck or g["key"].startswith(ck + "::{closure#")]
+                return "{closure#0}" in e[1] or any("vacant_streams" in str(g["blocks"]) for g in fam)
             ex = S.classify_exits(body, dg, h, vacant_edge)
             for (a, b_, kind) in ex:
                 ctx.ob("R07.4", f"{k}|exit|{kind}", kind in ("success", "timeout"), body.loc(a),
